@@ -27,8 +27,11 @@ def nca_clause(a, ev, r):
   m = _min_event(ev)
   if m is None:
     return z3.BoolVal(False)
-  ok = isinstance(m['fun'], VFunc) and getattr(m['fun'].node, '_qual', '') == 'NCA._loss_grad_lbfgs' and m['fun'].bound is not None \
-      and m['fun'].bound.oid == a.self._obj.oid
+  own = isinstance(m['fun'], VFunc) and m['fun'].bound is not None and m['fun'].bound.oid == a.self._obj.oid
+  if own and getattr(m['fun'].node, '_qual', '') != 'NCA._loss_grad_lbfgs':
+    # a bound method of the estimator under another name: that it computes the documented objective is then only observable at run time
+    return PatternMismatch('the function handed to the optimiser is self.%s, not the known NCA._loss_grad_lbfgs' % getattr(m['fun'].node, 'name', '?'))
+  ok = own
   args = m['args'].items if isinstance(m['args'], (VTuple, VList)) else []
   prep = calls(ev, 'base_metric:BaseMetricLearner._prepare_inputs')
   ok &= len(args) == 3 and bool(prep)
@@ -50,7 +53,10 @@ def mlkr_clause(a, ev, r):
   m = _min_event(ev)
   if m is None:
     return z3.BoolVal(False)
-  ok = isinstance(m['fun'], VFunc) and getattr(m['fun'].node, '_qual', '') == 'MLKR._loss' and m['fun'].bound is not None and m['fun'].bound.oid == a.self._obj.oid
+  own = isinstance(m['fun'], VFunc) and m['fun'].bound is not None and m['fun'].bound.oid == a.self._obj.oid
+  if own and getattr(m['fun'].node, '_qual', '') != 'MLKR._loss':
+    return PatternMismatch('the function handed to the optimiser is self.%s, not the known MLKR._loss' % getattr(m['fun'].node, 'name', '?'))
+  ok = own
   args = m['args'].items if isinstance(m['args'], (VTuple, VList)) else []
   prep = calls(ev, 'base_metric:BaseMetricLearner._prepare_inputs')
   ok &= len(args) == 2 and bool(prep)
